@@ -189,6 +189,26 @@ func c04Socket(c *core.Collector, x *Ctx) {
 		c.Inconclusive()
 		return
 	}
+	// connections that END WITH A PARSE ERROR (a frame with a wrong check code, as one whole write) come first and keep coming
+	// between the streams: whatever the server recycles from such a connection is then used by the valid ones
+	poison := func(k int) {
+		t, err := svc.Dial(srv.Addr, k%2 == 1, fmt.Sprintf("%d", 4490000+x.Batch*1000+k))
+		if err != nil {
+			return
+		}
+		f := t.Frame(0x0200, uint16(k), c04Body(core.NewRand(c.Seed, "c04poison", uint64(k)), 2, 28+k%40))
+		f[len(f)-2] ^= 0x55 // wrong check code
+		if f[len(f)-2] == 0x7e || f[len(f)-2] == 0x7d {
+			f[len(f)-2] = 0x11
+		}
+		t.Write(f)
+		t.WaitClosed(2 * time.Second)
+		t.Close()
+		c.Count("connections_ended_by_a_parse_error_before_the_streams", 1)
+	}
+	for k := 0; k < 8; k++ {
+		poison(k)
+	}
 	nstreams := c.N(24, 160)
 	type job struct{ s, m int }
 	var jobs []job
@@ -201,6 +221,9 @@ func c04Socket(c *core.Collector, x *Ctx) {
 	perStream := map[int]int{}
 	core.ParallelFor(len(jobs), 12, func(i int) {
 		j := jobs[i]
+		if i%16 == 5 {
+			poison(100 + i)
+		}
 		cid := x.Batch*100000 + i
 		viol, incon, n, wit := c04SockRun(srv, cid, c.Seed*131+uint64(x.Batch), j.s, c04SockModes[j.m])
 		c.Evals(int64(n))
